@@ -23,8 +23,8 @@
 //!   `sweep-beyond-full-turn`     |sweep| > 2π: the Bézier sequences stop after one full turn
 //!   `tiny-radii-abs-epsilon`     rx·ry·|sin step| ≤ S::EPSILON: `Line::intersection` calls the two
 //!                                tangents parallel, control point = start point
-//!   `ellipse-polar-start-angle`  `WithSvg::arc` recomputes the start angle as a polar angle, which
-//!                                is not the ellipse parameter when rx ≠ ry
+//!   `ctrl-intersection-cancellation`  the quadratic control point is off by no more than the a-priori
+//!                                rounding bound of `Line::intersection` on absolute positions
 
 use lyon_extra::parser::{ParserOptions, PathParser, Source};
 use lyon_geom::euclid::Angle;
@@ -237,12 +237,17 @@ fn bezier_oracle<S: Fl>(
                 cubic_at(&cubics[i], t)
             }
         };
-        // count: ceil(min(|sweep|, 2π) / step) (either value when the quotient is within rounding of an integer)
+        // count: no step larger than 45° / 90°: ceil(covered / step) pieces, where `covered` is the whole
+        // |sweep| or (what lyon does today) one full turn when the sweep is longer; either value when the
+        // quotient is within rounding of an integer
+        let count_ok = |x: f64| {
+            let near_int = (x - x.round()).abs() <= 8.0 * S::EPS * x.max(1.0);
+            n == x.ceil() as usize || (near_int && (n == x.round() as usize || n == x.round() as usize + 1))
+        };
+        let whole = beyond && count_ok(sweep.abs() / step_max);
+        let eff = if whole { sweep.abs() } else { eff };
         let x = eff / step_max;
-        let near_int = (x - x.round()).abs() <= 8.0 * S::EPS * x.max(1.0);
-        let n_ref = x.ceil() as usize;
-        let n_ok = n == n_ref || (near_int && (n == x.round() as usize || n == x.round() as usize + 1));
-        orc.check(n_ok, &cl(&format!("{}/count", kind)), "generic", || format!("n={} expected ceil({})", n, x));
+        orc.check(count_ok(x), &cl(&format!("{}/count", kind)), "generic", || format!("n={} expected ceil({})", n, x));
         if n == 0 {
             continue;
         }
@@ -680,11 +685,9 @@ fn check_path(orc: &mut Oracle, site: &str, path: &Path, s: &SvgArc<f32>, straig
     let m = pf(s.from).0.abs().max(pf(s.from).1.abs()).max(pf(s.to).0.abs()).max(pf(s.to).1.abs());
     let tol = round_tol::<f32>(&r.e, TWO_PI, m) + 64.0 * f32::EPS * ecc * r.e.rmax();
     let err = d2(pf(last), pf(s.to));
-    let circle = (r.e.rx - r.e.ry).abs() <= 1e-6 * r.e.rmax();
+    // arc_to: fast_atan2 once more for the start angle in WithSvg::arc, on top of start and end in to_arc
     let drift = 3.0 * ATAN_ERR * r.e.rmax();
-    let cls = if site == "api.arc_to" && !circle {
-        "ellipse-polar-start-angle"
-    } else if err <= tol + drift {
+    let cls = if err <= tol + drift {
         "fast-atan2-endpoint-drift"
     } else {
         "generic"
@@ -698,9 +701,7 @@ fn check_path(orc: &mut Oracle, site: &str, path: &Path, s: &SvgArc<f32>, straig
     let mm = r.e.cx.abs().max(r.e.cy.abs()) + r.e.rmax();
     let amp = 4.0 * meps * mm * mm * r.e.rmax() / det / r.e.rmin();
     let dev_tol = QUAD_DEV + (tol + drift) / r.e.rmin();
-    let cls_dev = if site == "api.arc_to" && !circle {
-        "ellipse-polar-start-angle"
-    } else if tiny {
+    let cls_dev = if tiny {
         "tiny-radii-abs-epsilon"
     } else if amp > QUAD_DEV * 0.01 && worst <= dev_tol + amp {
         "ctrl-intersection-cancellation"
